@@ -24,12 +24,26 @@ from engine.harness import Check, cps
 
 VERIF = os.path.dirname(os.path.dirname(os.path.abspath(__file__)))
 POINTER = "❱ "          # what syntax.py prints in front of a highlighted line number
+LEGACY_POINTER = "> "   # ... on a legacy Windows console
 ANSI = re.compile(r"\x1b\[[0-9;]*m")
-GUTTER1 = re.compile(r"^(?:" + POINTER + r"|  )( *)(\d+) ")
-GUTTER = re.compile(r"^(" + POINTER + r"|  )( *)(\d+) $")
+
+
+def _gutters(pointer):
+    return (re.compile(r"^(?:" + re.escape(pointer) + r"|  )( *)(\d+) "), re.compile(r"^(" + re.escape(pointer) + r"|  )( *)(\d+) $"))
+
+
+GUTTER1, GUTTER = _gutters(POINTER)
+LGUTTER1, LGUTTER = _gutters(LEGACY_POINTER)
 
 LEXERS = ["python", "json", "html", "text", "nosuchlexer"]
+# further lexer names (aliases, other capitalisation, lexers with their own newline / whitespace conventions); drawn less often
+MORE_LEXERS = ["Python", "py", "python3", "c", "cpp", "yaml", "markdown", "bash", "rst", "xml", "css", "javascript", "sql", "ini",
+               "diff", "ruby", "go", "rust", "toml", "docker", "make", "jinja", "html+jinja", "pycon", "console", "php", "tex",
+               "default", ""]
 THEMES = ["monokai", "ansi_dark", "ansi_light", "default"]
+MORE_THEMES = ["vim", "native", "emacs", "bw", "nosuchtheme", "solarized-dark"]
+BACKGROUNDS = [None, None, None, "red", "#102030", "rgb(1,2,3)", "default"]
+EXTS = [".py", ".json", ".html", ".txt", ".nosuchext", "", ".PY", ".md", ".yaml"]
 
 MC_ACTIONS = ["Expand", "LexKnown", "LexUnknown", "AssembleRanged", "AssembleWhole"]
 MC_HEAD = "CONSTANTS\n  Alphabet = {120, 32, 9, 10}\n"
@@ -55,26 +69,27 @@ def need_cells(line):
     return sum(1 if ord(c) < 0x300 else 2 for c in line)
 
 
-def project_rows(row_lines, numbers):
+def project_rows(row_lines, numbers, legacy=False):
     """Cut printed rows into [hasn, n, m, t].  With numbers the gutter width is taken from the
     first row (pointer or two blanks, right-justified number, one blank) and applied to all."""
     rows, ok = [], True
+    G1, G, PTR = (LGUTTER1, LGUTTER, LEGACY_POINTER) if legacy else (GUTTER1, GUTTER, POINTER)
     if not numbers:
         for ln in row_lines:
             rows.append(dict(hasn=False, n=0, m=False, t=cps(ln.rstrip(" "))))
         return rows, ok
     if not row_lines:
         return rows, ok
-    m = GUTTER1.match(row_lines[0])
+    m = G1.match(row_lines[0])
     if not m:
         return [dict(hasn=False, n=0, m=False, t=cps(ln.rstrip(" "))) for ln in row_lines], False
     g = m.end()
     for ln in row_lines:
         ln = ln.ljust(g)
         gut, code = ln[:g], ln[g:]
-        mm = GUTTER.match(gut)
+        mm = G.match(gut)
         if mm:
-            rows.append(dict(hasn=True, n=int(mm.group(3)), m=mm.group(1) == POINTER, t=cps(code.rstrip(" "))))
+            rows.append(dict(hasn=True, n=int(mm.group(3)), m=mm.group(1) == PTR, t=cps(code.rstrip(" "))))
         elif gut.strip(" ") == "":
             rows.append(dict(hasn=False, n=0, m=False, t=cps(code.rstrip(" "))))
         else:
@@ -146,33 +161,54 @@ def sel_ends_blank(case):
     return 1 <= b < ncore and b >= a and pieces[b - 1].strip(" \t") == ""
 
 
-def run_syntax(case):
+def effective_source(case):
+    """dedent=True: "stripping of initial whitespace" is textwrap.dedent applied to the code before anything else -
+    the lines the statement speaks of are then the lines of the dedented code"""
+    import textwrap
+    return textwrap.dedent(case["src"]) if case.get("dedent") else case["src"]
+
+
+def run_syntax(case, workdir=None):
     """One real render -> record for Trace_Syntax."""
     from rich.console import Console
     from rich.syntax import Syntax
-    truecolor = case["color"] == "truecolor"
-    console = Console(width=case["width"], file=io.StringIO(), color_system="truecolor" if truecolor else None,
-                      force_terminal=truecolor, legacy_windows=False)
+    color = case["color"]
+    legacy = bool(case.get("legacy"))
+    console = Console(width=case["width"], file=io.StringIO(), color_system=color, force_terminal=color is not None, legacy_windows=legacy)
     exc, out = "none", ""
+    eff = dict(case, src=effective_source(case))
+    known = case["lexer"] not in ("nosuchlexer", "default", "")
     try:
-        syntax = Syntax(case["src"], case["lexer"], theme=case["theme"], line_numbers=case["line_numbers"],
-                        start_line=case["start_line"],
-                        line_range=tuple(case["line_range"]) if case["line_range"] is not None else None,
-                        highlight_lines=set(case["highlight"]), code_width=case["code_width"],
-                        tab_size=case["tab_size"], word_wrap=case["word_wrap"],
-                        indent_guides=case["indent_guides"])
-        console.print(syntax)
+        kw = dict(theme=case["theme"], line_numbers=case["line_numbers"], start_line=case["start_line"],
+                  line_range=tuple(case["line_range"]) if case["line_range"] is not None else None,
+                  highlight_lines=set(case["highlight"]), code_width=case["code_width"],
+                  tab_size=case["tab_size"], word_wrap=case["word_wrap"], indent_guides=case["indent_guides"])
+        if case.get("dedent"):
+            kw["dedent"] = True
+        if case.get("background") is not None:
+            kw["background_color"] = case["background"]
+        if case.get("ext") is not None and workdir is not None:
+            # Syntax.from_path: the code comes from a file, the lexer from its extension / content
+            path = os.path.join(workdir, "c17src%s" % case["ext"])
+            with open(path, "w", encoding="utf-8", newline="") as f:
+                f.write(case["src"])
+            known = case["ext"].lower() in (".py", ".json", ".html", ".md", ".yaml")
+            syntax = Syntax.from_path(path, **kw)
+        else:
+            syntax = Syntax(case["src"], case["lexer"], **kw)
+        pk = case.get("print") or {}
+        console.print(syntax, **pk)
         out = console.file.getvalue()
     except Exception as e:     # a crash inside Rich is data for TLC
         exc = type(e).__name__
-    rows, ok = project_rows(printed_lines(out), case["line_numbers"]) if exc == "none" else ([], True)
-    mode = syn_mode(case)
+    rows, ok = project_rows(printed_lines(out), case["line_numbers"], legacy) if exc == "none" else ([], True)
+    mode = syn_mode(eff)
     guides = bool(case["indent_guides"] and case["line_numbers"])
-    known = case["lexer"] != "nosuchlexer"
-    return dict(kind="syn", src=cps(case["src"]), tab=case["tab_size"], start=case["start_line"],
+    plain = case["lexer"] in LEXERS and case.get("ext") is None and not case.get("dedent")
+    return dict(kind="syn", src=cps(eff["src"]), tab=case["tab_size"], start=case["start_line"],
                 numbers=case["line_numbers"], range=list(case["line_range"]) if case["line_range"] is not None else [],
                 hl=sorted(case["highlight"]), mode=mode, guides=guides, known=known,
-                conf=(mode == "exact" and not guides), exc=exc, gutter_ok=ok, rows=rows)
+                conf=(mode == "exact" and not guides and plain), exc=exc, gutter_ok=ok, rows=rows)
 
 
 def syn_signature(clause, case, rec):
@@ -203,11 +239,15 @@ POOLS = {
              "<!-- c -->", "    <div id=\"a\" style=\"color: red\">text &amp; more</div>", "<style>p { color: red }</style>"],
     "misc": ["", " ", "   ", "\t", "x", "  x  ", "\tx\ty", "ａｂ", "a\tb", "1 2 3", "  7", "❱ 1 x", "│ x",
              "word " * 9 + "end", "好" * 14, "    " + "好" * 9 + " tail"],
+    # characters str.splitlines() - but neither Python nor Rich - takes for line ends (FF / VT are left out: Text strips them)
+    "breaks": ["a = 1  # \x1c fs", "# \x1d\x1e", "s = 'x\x85y'", "t = 'p\u2028q'  # ls", "\u2029", "    u = 1 # \x85", "> quoted", ">"],
 }
 
 
 def random_source(rng):
     pool = POOLS[rng.choice(["python", "python", "json", "html", "misc", "misc"])] + POOLS["misc"][:5]
+    if rng.random() < 0.15:
+        pool = pool + POOLS["breaks"] * 2
     lead = rng.choice([0, 0, 0, 1, 2, 3])
     body = []
     for _ in range(rng.choice([0, 1, 1, 2, 3, 4, 6, 9])):
@@ -215,6 +255,9 @@ def random_source(rng):
         if rng.random() < 0.2:
             body.extend([rng.choice(["", "", "  ", "\t"])] * rng.choice([1, 1, 2]))
     trail = rng.choice(["", "", "\n", "\n", "\n\n", "\n\n\n", "\n  \n", "  ", "\n\t"])
+    if rng.random() < 0.12:          # an indented block (what dedent is for)
+        ind = rng.choice(["    ", "  ", "\t", "        "])
+        body = [ind + l if l.strip() else l for l in body]
     return "\n" * lead + "\n".join(body) + trail
 
 
@@ -223,7 +266,8 @@ def random_options(rng, src):
     n = len(pieces)
     numbers = rng.random() < 0.75
     start = rng.choice([1, 1, 1, 0, 2, 10, 98, 999])
-    rng_kind = rng.choice(["none", "none", "inside", "inside", "start", "end", "beyond", "empty", "zero"]) if numbers else "none"
+    # (without line numbers a range is given less often: the statement then only demands a run of unchanged source lines)
+    rng_kind = rng.choice(["none", "none", "inside", "inside", "start", "end", "beyond", "empty", "zero"]) if numbers or rng.random() < 0.3 else "none"
     if rng_kind == "none":
         lr = None
     elif rng_kind == "inside":
@@ -257,10 +301,19 @@ def random_options(rng, src):
         width = code_width + gut + rng.choice([0, 3, 20, 60])
     shown = [start + i for i in range(n)]
     highlight = sorted(set(rng.sample(shown, min(len(shown), rng.choice([0, 0, 1, 2]))) + ([start + n + 5] if rng.random() < 0.1 else [])))
-    return dict(line_numbers=numbers, start_line=start, line_range=lr, tab_size=tab, word_wrap=word_wrap,
+    opts = dict(line_numbers=numbers, start_line=start, line_range=lr, tab_size=tab, word_wrap=word_wrap,
                 code_width=code_width, width=max(width, 16), highlight=highlight,
-                indent_guides=rng.random() < 0.3, theme=rng.choice(THEMES),
-                color=rng.choice([None, None, "truecolor"]))
+                indent_guides=rng.random() < 0.3, theme=rng.choice(THEMES + THEMES + MORE_THEMES),
+                color=rng.choice([None, None, None, "truecolor", "truecolor", "256", "standard"]))
+    if rng.random() < 0.15:
+        opts["dedent"] = True
+    if rng.random() < 0.2:
+        opts["background"] = rng.choice(BACKGROUNDS)
+    if rng.random() < 0.12:
+        opts["legacy"] = True
+    if rng.random() < 0.15:
+        opts["ext"] = rng.choice(EXTS)
+    return opts
 
 
 def enumerated_cases(chk):
@@ -322,7 +375,10 @@ def filler(rng, k, wide=False):
 def gen_tb_case(rng, idx):
     """-> dict(files={modname: text}, entry=[modname, funcname|None], shape=..)"""
     shape = rng.choice(["func", "func", "module-first", "module-last", "multi", "cross", "long", "chain",
-                        "import-chain", "tabs", "longline", "formfeed"])
+                        "import-chain", "tabs", "longline", "formfeed", "context", "from-none", "recursion", "names",
+                        "syntax-error", "exec", "deleted"])
+    delete = []
+    wide_window = None
     lead = rng.choice([0, 0, 1, 3, 5, 12])
     a = "c17m%d_a" % idx
     b = "c17m%d_b" % idx
@@ -361,8 +417,49 @@ def gen_tb_case(rng, idx):
         # page breaks (and other characters str.splitlines() - but not Python - treats as line ends) well
         # above the failing line, outside the displayed window
         sep = rng.choice(["\x0c", "\x0c", "# \x0b", "# \x1c", "# \u2028", "# \x85"])
+        wide_window = rng.random() < 0.4
+        if wide_window:       # the window will show these lines: only separators Text does not strip from what it displays
+            sep = rng.choice(["# \x1c", "# \u2028", "# \x85", "\x1d", "s = 'a\u2029b'"])
         body = head + ["# page one", sep, "A = 1", sep] + filler(rng, rng.randint(8, 14)) + ["def run():", "    return A // 0"] + filler(rng, rng.randint(0, 3))
         files[a] = "\n".join(body) + "\n"
+    elif shape == "context":          # implicit chaining: an exception raised while another one is handled
+        body = head + ["def inner():", "    return {}['k']", "", "def run():", "    try:", "        inner()",
+                       "    except KeyError:", "        return int('x')  # 二つ目"] + filler(rng, rng.randint(0, 3))
+        files[a] = "\n".join(body) + "\n"
+    elif shape == "from-none":        # `from None` suppresses the context: one stack only
+        body = head + ["def inner():", "    raise KeyError('k')", "", "def run():", "    try:", "        inner()",
+                       "    except KeyError:", "        raise ValueError('clean') from None"]
+        files[a] = "\n".join(body) + "\n"
+    elif shape == "recursion":        # the same line in several frames
+        body = head + filler(rng, rng.randint(0, 3)) + ["def down(n):", "    if n == 0:", "        raise RuntimeError('bottom')",
+                                                         "    return down(n - 1) + 1", "", "def run():", "    return down(%d)" % rng.randint(1, 6)]
+        files[a] = "\n".join(body) + "\n"
+    elif shape == "names":            # frames of a lambda, a method, a nested function, a class body
+        kind = rng.choice(["lambda", "method", "nested", "classbody"])
+        if kind == "lambda":
+            body = head + ["f = lambda d: d['missing']", "", "def run():", "    return f({})"]
+        elif kind == "method":
+            body = head + ["class K:", "    def m(self, x):", "", "        return x.nope", "", "def run():", "    return K().m(1)"]
+        elif kind == "nested":
+            body = head + ["def run():", "    def inner(v):", "        return v[3]", "    return inner(())"]
+        else:
+            body = head + ["def run():", "    class C:", "        a = 1", "        b = a // 0", "    return C"]
+        files[a] = "\n".join(body) + "\n"
+    elif shape == "syntax-error":     # the imported module does not compile: frames of the importer + Rich's syntax error panel
+        files[b] = "\n".join([""] * rng.choice([0, 2]) + ["x = 1", rng.choice(["def broken(:", "y = (1,", "    indented = 1", "z = 1 +"]), "w = 2"]) + "\n"
+        if rng.random() < 0.5:
+            files[a] = "\n".join(head + ["v = 0", "import %s" % b]) + "\n"
+            entry = [a, None]
+        else:
+            files[a] = "\n".join(head + ["def run():", "    import %s" % b, "    return 1"]) + "\n"
+    elif shape == "exec":             # a frame without a source file (compiled from a string) between two frames with one
+        files[a] = "\n".join(head + ["SRC = 'def call(f):\\n    return f()\\n'", "", "def inner():", "    return [][1]", "",
+                                     "def run():", "    ns = {}", "    exec(compile(SRC, '<generated>', 'exec'), ns)",
+                                     "    return ns['call'](inner)"]) + "\n"
+    elif shape == "deleted":          # a frame whose file is gone when the traceback is rendered, between readable frames
+        files[b] = "\n".join([""] * rng.choice([0, 3]) + ["def middle(f):", "    return f(0)"]) + "\n"
+        files[a] = "\n".join(head + ["import %s" % b, "", "def last(n):", "    return 1 % n", "", "def run():", "    return %s.middle(last)" % b]) + "\n"
+        delete = [b]
     elif shape == "tabs":
         body = head + ["def run():", "\tfor i in range(3):", "\t\tif i == 2:", "\t\t\traise IndexError(i)", "\t\tj = i", "\treturn j"]
         files[a] = "\n".join(body) + "\n"
@@ -372,8 +469,12 @@ def gen_tb_case(rng, idx):
         files[a] = "\n".join(body) + "\n"
     width = rng.choice([100, 100, 100, None, 60, 130])
     word_wrap = rng.random() < 0.3 and width != 60
-    return dict(files=files, entry=entry, shape=shape, width=width, console_width=rng.choice([120, 120, 100, 140]),
-                extra_lines=rng.choice([3, 3, 0, 1, 5]), word_wrap=word_wrap, indent_guides=rng.random() < 0.7,
+    # the public ways to a rendered traceback: Traceback.from_exception(...), Console.print_exception(...) and Traceback() inside
+    # the except block (both start at the handler: the driver's own frames come first), Traceback.extract + Traceback(trace, ...)
+    api = rng.choice(["from_exception", "from_exception", "print_exception", "ctor", "extract"])
+    return dict(files=files, entry=entry, shape=shape, api=api, delete=delete, width=width, console_width=rng.choice([120, 120, 100, 140]),
+                extra_lines=rng.choice([3, 3, 0, 1, 5]) if wide_window is False else rng.choice([12, 40]) if wide_window else rng.choice([3, 3, 0, 1, 5, 12, 40]),
+                word_wrap=word_wrap, indent_guides=rng.random() < 0.7,
                 theme=rng.choice([None, "monokai", "ansi_light"]),
                 # locals are only asked for where the panel is too narrow to put them beside the code
                 show_locals=rng.random() < 0.1 and (width or 999) <= 100,
@@ -396,6 +497,9 @@ def exception_chain(ev):
 def project_traceback(out, paths):
     """-> list of rendered frames [dict(path, hdr_lineno, lines=[code row strings])] in print order"""
     hdr = re.compile(r"^(" + "|".join(re.escape(p) for p in sorted(paths, key=len, reverse=True)) + r"):(\d+) in (\S+)\s*$")
+    # the header of any frame - also of one without a file ("<string>:1 in <module>"), which follows the previous frame's code
+    # without a blank row; code rows start with the gutter (blank or pointer), headers do not
+    anyhdr = re.compile(r"^[^\s" + POINTER[0] + r"].*:(\d+) in (\S+)\s*$")
     frames, cur, state = [], None, None
     for ln in printed_lines(out):
         if not (len(ln) >= 4 and ln[0] == "│" and ln[-1] == "│"):
@@ -403,6 +507,9 @@ def project_traceback(out, paths):
             continue
         inner = ln[2:-2]
         m = hdr.match(inner)
+        if not m and anyhdr.match(inner):
+            cur = None
+            continue
         if m:
             cur = dict(path=m.group(1), hdr_lineno=int(m.group(2)), lines=[])
             frames.append(cur)
@@ -434,6 +541,29 @@ def run_traceback(case, workdir):
         with open(p, "w", encoding="utf-8", newline="") as f:
             f.write(text)
         paths[p] = text
+    gone = {os.path.join(workdir, name + ".py") for name in case.get("delete", [])}
+    api = case.get("api", "from_exception")
+    truecolor = case["color"] == "truecolor"
+    console = Console(width=case["console_width"], file=io.StringIO(), color_system="truecolor" if truecolor else None,
+                      force_terminal=truecolor, legacy_windows=False)
+    opts = dict(width=case["width"], extra_lines=case["extra_lines"], theme=case["theme"], word_wrap=case["word_wrap"])
+    show_locals = bool(case["show_locals"]) and api in ("from_exception", "extract")
+    state = dict(exc="none", out="", rendered=False)
+
+    def render(make):
+        """make() -> renderable or None (already printed)"""
+        for g in gone:                                   # the file disappears between the failure and the report
+            if os.path.exists(g):
+                os.remove(g)
+        try:
+            r = make()
+            if r is not None:
+                console.print(r)
+            state["out"] = console.file.getvalue()
+        except Exception as e:
+            state["exc"] = type(e).__name__
+        state["rendered"] = True
+
     et = ev = tb = None
     old_flag = sys.dont_write_bytecode
     sys.dont_write_bytecode = True
@@ -449,6 +579,11 @@ def run_traceback(case, workdir):
                 getattr(mod, func)()
         except Exception:
             et, ev, tb = sys.exc_info()
+            # the entry points that read sys.exc_info() have to be called while the exception is being handled
+            if api == "print_exception":
+                render(lambda: console.print_exception(**opts))
+            elif api == "ctor":
+                render(lambda: Traceback(indent_guides=case["indent_guides"], **opts))
     finally:
         sys.path.remove(workdir)
         sys.dont_write_bytecode = old_flag
@@ -456,8 +591,11 @@ def run_traceback(case, workdir):
             sys.modules.pop(name, None)
     if ev is None:
         raise RuntimeError("generated module did not raise: %r" % (case["entry"],))
+    tb0 = tb
     while tb is not None and tb.tb_frame.f_code.co_filename not in paths:
         tb = tb.tb_next
+    if tb is None:            # no frame of a generated file in the outermost stack (cannot happen with the shapes above)
+        tb = tb0
     # ground truth: Python's own traceback links and line numbers
     expected = []
     for e in exception_chain(ev):
@@ -466,21 +604,20 @@ def run_traceback(case, workdir):
             fn = fr.f_code.co_filename
             if fn in paths:
                 expected.append((fn, lineno))
-    truecolor = case["color"] == "truecolor"
-    console = Console(width=case["console_width"], file=io.StringIO(), color_system="truecolor" if truecolor else None,
-                      force_terminal=truecolor, legacy_windows=False)
-    exc, out = "none", ""
-    try:
-        console.print(Traceback.from_exception(et, ev, tb, width=case["width"], extra_lines=case["extra_lines"],
-                                               theme=case["theme"], word_wrap=case["word_wrap"],
-                                               show_locals=case["show_locals"], indent_guides=case["indent_guides"]))
-        out = console.file.getvalue()
-    except Exception as e:
-        exc = type(e).__name__
+    if not state["rendered"]:
+        if api == "extract":
+            render(lambda: Traceback(Traceback.extract(et, ev, tb, show_locals=show_locals), show_locals=show_locals,
+                                     indent_guides=case["indent_guides"], **opts))
+        else:
+            render(lambda: Traceback.from_exception(et, ev, tb, show_locals=show_locals, indent_guides=case["indent_guides"], **opts))
+    exc, out = state["exc"], state["out"]
+    guides = bool(case["indent_guides"]) if api != "print_exception" else True      # print_exception has no such option: the default is on
     rendered = project_traceback(out, paths) if exc == "none" else []
     eff_width = min(case["width"] or case["console_width"], case["console_width"])
     recs = []
     for i, (fn, lineno) in enumerate(expected):
+        if fn in gone:        # "for every frame whose source file is readable"
+            continue
         text = paths[fn]
         fr = rendered[i] if i < len(rendered) and rendered[i]["path"] == fn else None
         rows, ok = project_rows(fr["lines"], True) if fr else ([], True)
@@ -491,7 +628,7 @@ def run_traceback(case, workdir):
             # code_width is 88 (traceback.py:497); the panel leaves eff_width - 4 cells, the gutter takes <= 7
             mode = "exact" if need <= 88 and need <= eff_width - 12 else "prefix"
         recs.append(dict(kind="tb", src=cps(text), tab=4, lineno=lineno, extra=case["extra_lines"], mode=mode,
-                         guides=bool(case["indent_guides"]), exc=exc, found=bool(fr and rows),
+                         guides=guides, exc=exc, found=bool(fr and rows),
                          hdr_lineno=fr["hdr_lineno"] if fr else 0, gutter_ok=ok, rows=rows,
                          frame=i, nframes=len(expected), nrendered=len(rendered)))
     return recs
@@ -508,8 +645,8 @@ def tb_signature(clause, case, rec):
         clause = "crash:" + rec["exc"]
         lead = any(t.startswith("\n") for t in case["files"].values())
     pos = "first" if rec["lineno"] == 1 else "last" if rec["lineno"] >= len(text.rstrip("\n").split("\n")) else "middle"
-    return "%s kind=tb lead_nl=%s failing=%s long_file=%s guides=%s mode=%s" % (
-        clause, yn(lead), pos, yn(nlines > 99), yn(rec["guides"]), rec["mode"])
+    return "%s kind=tb lead_nl=%s failing=%s long_file=%s guides=%s mode=%s shape=%s api=%s" % (
+        clause, yn(lead), pos, yn(nlines > 99), yn(rec["guides"]), rec["mode"], case["shape"], case.get("api", "from_exception"))
 
 
 # ---------------------------------------------------------------------------------------------
@@ -547,8 +684,13 @@ def run_m1(chk):
 
 
 def run(chk: Check):
-    chk.rule = ("a case is one (source, lexer, option set, console) render of Syntax or one frame of a rendered "
-                "Traceback; sources: every string of <= 3 (quick) / 4 (thorough) characters over {x, space, tab, newline}, "
+    chk.rule = ("a case is one (source, lexer, option set, console) render of Syntax (constructor or Syntax.from_path; options incl. dedent, "
+                "background_color, 10 themes, ~35 lexer names, line ranges with and without line numbers; consoles without colour / standard / 256 / "
+                "truecolor / legacy Windows) or one frame of a rendered Traceback (Traceback.from_exception / Console.print_exception / Traceback() "
+                "in the handler / Traceback.extract + Traceback(trace); module shapes: function, module level, several frames, two files, long "
+                "file, explicit / implicit / suppressed chaining, recursion, lambda / method / nested / class body, import of a module that does "
+                "not compile, a frame without a file, a frame whose file is gone, page-break characters; every module path is rewritten with "
+                "other content and rendered again); sources: every string of <= 3 (quick) / 4 (thorough) characters over {x, space, tab, newline}, "
                 "a structured list (leading / interior / trailing blank lines, tabs, wide characters, empty, no final newline) "
                 "and seeded random sources from python / json / html / misc line pools; non-trivial = at least two lines, "
                 "or a tab, or a line range, or a traceback frame")
@@ -565,38 +707,51 @@ def run(chk: Check):
         "exactness is only demanded when every line certainly fits (cells <= 2 per code point >= U+0300) or word_wrap is on",
         "word_wrap on: rows under one number concatenate to the line, runs of blanks at row breaks may be absorbed by padding",
         "indent guides: U+2502 is accepted where the (space padded) line has only blanks up to that column",
-        "line_range is judged only with line numbers shown; ranges lying entirely before line 1 (end < 0) are not generated",
-        "sources contain no control characters other than newline and tab, no BOM; start_line >= 0; tab_size >= 1; dedent off",
-        "traceback: frames of generated, readable files; failing line exists in the file; path fits the panel"]
+        "which lines a line_range selects is judged only with line numbers shown; without numbers the rows must be a contiguous run of "
+        "unchanged source lines; ranges lying entirely before line 1 (end < 0) are not generated",
+        "sources contain no carriage return, backspace, vertical tab or form feed (Text strips them from what it displays; in traceback files "
+        "they only occur outside the displayed window), no BOM; other line separators of str.splitlines (FS GS RS NEL LS PS) do occur; "
+        "start_line >= 0; tab_size >= 1",
+        "dedent=True: the lines are those of textwrap.dedent(code) (applied before tab expansion)",
+        "word wrapping may absorb any white space (str.isspace) at a row break, not only U+0020",
+        "traceback: frames of generated files that are readable when the traceback is rendered (a frame without a file or whose file was "
+        "removed is skipped, its neighbours are judged); failing line exists in the file; path fits the panel"]
     m1 = None
     if chk.replay_only:
         case = chk.replay_only["case"]
         if case.get("kind") == "tb":
-            syn_cases, tb_cases = [], [case["case"]]
+            syn_cases, tb_cases = [], list(case.get("prior", [])) + [case["case"]]      # earlier cases that wrote the same paths
         else:
             syn_cases, tb_cases = [case["case"]], []
     else:
         # M1 runs beside the renders (it is mostly single-threaded: initial states, BFS levels)
         m1_pool = ThreadPoolExecutor(1)
-        m1 = m1_pool.submit(run_m1, chk)
+        if os.environ.get("VERIF_C17_SKIP_M1"):          # development aid (trying mutants on a loaded machine); never set by ./check
+            chk.notes["parts_run"] = "M1 skipped (VERIF_C17_SKIP_M1)"
+            m1 = m1_pool.submit(lambda: None)
+        else:
+            m1 = m1_pool.submit(run_m1, chk)
         syn_cases = enumerated_cases(chk) + structured_cases(chk)
         for _ in range(chk.pick(2500, 60000)):
             src = random_source(chk.rng)
-            syn_cases.append(dict(src=src, lexer=chk.rng.choice(LEXERS), **random_options(chk.rng, src)))
-        tb_cases = [gen_tb_case(chk.rng, i) for i in range(chk.pick(120, 1500))]
+            syn_cases.append(dict(src=src, lexer=chk.rng.choice(LEXERS + LEXERS + MORE_LEXERS), **random_options(chk.rng, src)))
+        # histories on the file system: every module path is used by three cases in a row-independent order, each time with
+        # other content (line count, text of the failing line) - a traceback must show the file as it is when it is rendered
+        ntb = chk.pick(150, 1500)
+        tb_cases = [gen_tb_case(chk.rng, i % max(1, ntb // 3)) for i in range(ntb)]
 
     recs, owners = [], []
-    for case in syn_cases:
-        rec = run_syntax(case)
-        recs.append(rec)
-        owners.append(("syn", case))
-        src = case["src"]
-        chk.case(("syn", case), src.count("\n") >= 1 or "\t" in src or case["line_range"] is not None)
     # generated modules live in a short-lived directory with a SHORT path: the traceback frame header
     # (path:line in function) must fit the narrow traceback widths, wherever /verif is checked out
     import tempfile
     workdir = tempfile.mkdtemp(prefix="c", dir="/tmp")
     try:
+        for case in syn_cases:
+            rec = run_syntax(case, workdir)
+            recs.append(rec)
+            owners.append(("syn", case))
+            src = case["src"]
+            chk.case(("syn", case), src.count("\n") >= 1 or "\t" in src or case["line_range"] is not None)
         for case in tb_cases:
             for rec in run_traceback(case, workdir):
                 recs.append(rec)
@@ -632,7 +787,10 @@ def run(chk: Check):
             case["src"], case["lexer"], {k: case[k] for k in ("line_numbers", "start_line", "line_range", "word_wrap", "code_width", "width", "indent_guides", "tab_size")})
             if kind == "syn" else "shape=%s entry=%s" % (case["shape"], case["entry"])), shown)
         sigs[sig] = sigs.get(sig, 0) + 1
-        chk.reject(sig, detail, dict(kind=kind, case=case, observed=shown))
+        payload = dict(kind=kind, case=case, observed=shown)
+        if kind == "tb":
+            payload["prior"] = [c for c in tb_cases[:next(i for i, c in enumerate(tb_cases) if c is case)] if set(c["files"]) & set(case["files"])]
+        chk.reject(sig, detail, payload)
     chk.notes["rejection_signatures"] = sigs
     for d, n in sorted((k, v) for k, v in drifts.items() if not k.startswith("eg:")):
         chk.drift_note("%s: %d record(s), e.g. %r" % (d, n, drifts["eg:" + d]))
